@@ -409,6 +409,7 @@ func max(a, b int) int {
 
 func run(c *core.Ctx) {
 	runConcurrent(c)
+	runTwoWriters(c)
 	for idx, n := 0, c.Scale(1500, 60000); idx < n; idx++ {
 		if !c.Mine(idx) {
 			continue
